@@ -1,0 +1,17 @@
+//go:build verif
+
+package directory
+
+// Machine-checked contracts for the govc verifier (/verif). This file is comment-only and is
+// compiled only with the "verif" build tag.
+
+//@ props C14
+
+//@ func directory.NewUnixFSBasicDir
+//@ ensures err == nil ==> result != nil && fresh(result) && typeis(result, "*directory._UnixFSBasicDir") && result.(*directory._UnixFSBasicDir)._substrate == substrate
+//@ ensures err != nil ==> result == nil
+//@ assigns nothing
+
+//@ func (*directory._UnixFSBasicDir).Substrate
+//@ ensures substrate-is-original: result == n._substrate
+//@ assigns nothing
